@@ -1,6 +1,7 @@
 import CkptVerif.Proofs.MultistageSteps
 import CkptVerif.Proofs.GW
 import CkptVerif.Proofs.StepBridges
+import CkptVerif.Proofs.RevolveSteps
 /-!
 # C05 — binomial schedules perform the minimal possible number of forward steps
 
@@ -48,4 +49,12 @@ namespace Ckpt
 the number of forward steps published by `optimal_steps_binomial(N, ram + disk)` -/
 alias C05_multistage := GW.multistage_fwdSteps_optimal
 alias C05_multistage_steps := GW.multistage_fwdSteps
+end Ckpt
+
+namespace Ckpt
+/-- Revolve: for every cost vector with `uf > 0` the stream advances the forward over exactly
+`N + E(N, min(cm, N-1))` steps (the cost table is `(l+1)·ub + uf·E`, so the argmin does not depend
+on the costs and attains the minimum of the recurrence) -/
+alias C05_revolve := RC.revolve_fwdSteps
+alias C05_revolve_table := RC.opt0_eq_extra
 end Ckpt
